@@ -573,8 +573,10 @@ def _recipe_requests():
     for dname, dv in (("year-9999-negative-offset", "Fri, 31 Dec 9999 23:59:59 -0001"), ("year-9999-gmt", "Fri, 31 Dec 9999 23:59:59 GMT"),
                       ("year-1-positive-offset", "Mon, 01 Jan 0001 00:00:00 +2359"), ("naive", "Tue, 14 Nov 2023 22:13:21 -0000"),
                       ("no-zone", "Tue, 14 Nov 2023 22:13:21"), ("garbage", "yesterday-ish"), ("empty", ""), ("year-0", "Sat, 01 Jan 0000 00:00:00 GMT"),
-                      ("huge-offset", "Tue, 14 Nov 2023 22:13:21 +9999"), ("month-13", "Tue, 14 Foo 2023 22:13:21 GMT")):
+                      ("huge-offset", "Tue, 14 Nov 2023 22:13:21 +9999"), ("month-13", "Tue, 14 Foo 2023 22:13:21 GMT"),
+                      ("number-beyond-c-int", "Tue, 15 Nov 1994 08:99999999999912:31 GMT"), ("year-beyond-c-int", "Tue, 15 Nov 99999999999999 08:12:31 GMT")):
         special[f"date-header-{dname}"] = date_header(dv)
+        special[f"if-modified-since-{dname}"] = ims_under_tz("UTC0", dv)
     special["urlencoded-1001-fields"] = many_fields(b"&".join(b"k%d=v" % i for i in range(1001)))
     special["urlencoded-5000-bare-ampersands"] = many_fields(b"&" * 5000)
     for tzname, tz in (("east", "JST-9"), ("west", "EST5"), ("far-east", "XXX-14")):
